@@ -39,7 +39,7 @@ def make_tree(r, root, nfiles):
     return paths
 
 
-def run(cmd, env=None, timeout=300):
+def run(cmd, env=None, timeout=90):
     e = dict(os.environ); e.update(yv.SAN_ENV)
     if env: e.update(env)
     try:
@@ -79,6 +79,7 @@ def c18(res, tier, seed):
         optsets = [[], ["-s", "-L", "-X"], ["-m", "-g", "-e"], ["-c"], ["-n"], ["-t", "tagA"]]
     threads = [1, 3, 32] if tier == "quick" else [1, 2, 3, 8, 32]
     qrecords, qowners = [], []
+    hangs = [0]
     for opts in optsets:
         # reference: each file in a separate single-threaded invocation
         ref = collections.Counter()
@@ -91,10 +92,14 @@ def c18(res, tier, seed):
             ref += lines_of(out)
         for n in threads:
             for rep in range(1 if tier == "quick" else 3):
+                if hangs[0] > 3:
+                    continue          # the tool does not terminate (already reported): no point in waiting for every configuration
                 tr = os.path.join(wd, "queue_%d_%d.trace" % (n, rep))
                 rc, out, err = run([yara_t, "-p", str(n), "-r"] + EXT_DEFAULT + opts + [rules_path, tree], env={"YARA_VERIF_TRACE": tr})
                 res.count(1, (tuple(opts), n, rep))
                 got = lines_of(out)
+                if rc == -9:
+                    hangs[0] += 1
                 if "ThreadSanitizer" in err or rc not in (0,):
                     mm = re.search(r"WARNING: ThreadSanitizer: [^\n]*", err)
                     res.violation("yara -p %d %s: %s" % (n, " ".join(opts), mm.group(0) if mm else "exit status %s, stderr %s" % (rc, err[-200:].replace("\n", " | "))),
@@ -147,7 +152,7 @@ def c18(res, tier, seed):
                 res.cov["traces_validated_against_impl"] += 1
     # ---- exit status: non-zero exactly when an error was reported
     lst = os.path.join(wd, "scan.list")
-    open(lst, "w").write("\n".join(paths[:3] + [os.path.join(tree, "does_not_exist")]) + "\n")
+    open(lst, "w").write("\n".join(paths[:1] + [os.path.join(tree, "does_not_exist")] + paths[1:5]) + "\n")       # successes after the failure
     for label, cmd in (("scan-list with a missing file", [yara_a, "--scan-list"] + EXT_DEFAULT + [rules_path, lst]), ("directory", [yara_a, "-r"] + EXT_DEFAULT + [rules_path, tree]),
                        ("single missing file", [yara_a] + EXT_DEFAULT + [rules_path, os.path.join(tree, "does_not_exist")]), ("single file", [yara_a] + EXT_DEFAULT + [rules_path, paths[0]])):
         rc, out, err = run(cmd)
